@@ -329,4 +329,4 @@ class DetectorConvergenceCondition(StoppingCondition):
             operand=None,
         )
 
-        return (~min_steps_condition) | (time_condition & (~converged))
+        return time_condition & ((~min_steps_condition) | (~converged))
